@@ -203,8 +203,12 @@ class DATADumpFile(DATADump):
 
 	# Writes a new message at the end of the capture
 	def append_msg(self, msg):
-		# Generate raw bytes and write
+		# Generate raw bytes
 		msg_raw = self.dump_msg(msg)
+
+		# Reading moves the file descriptor, so make sure
+		# that we are (back) at the end of the capture
+		self.f.seek(0, 2)
 		self.f.write(msg_raw)
 
 	# Writes a list of messages at the end of the capture
